@@ -13,7 +13,8 @@ THEOREMS = ['ChamVerif.C01_wrapOrder_observed', 'ChamVerif.C01_order', 'ChamVeri
             'ChamVerif.nsGet_stmtPerm', 'ChamVerif.prepare_stmtPerm', 'ChamVerif.C01_element_order', 'ChamVerif.C01_program_order',
             'ChamVerif.parseTag_wf', 'ChamVerif.C01_default_keeps', 'ChamVerif.C01_content_value', 'ChamVerif.C01_none_removes',
             'ChamVerif.Fuel.fuel_mono', 'ChamVerif.Fuel.eval_fuel_ok', 'ChamVerif.wrappers_shape', 'ChamVerif.elementPost_tal',
-            'ChamVerif.C01_element_semantics', 'ChamVerif.C01_element_ok', 'ChamVerif.C01_element_raised']
+            'ChamVerif.C01_element_semantics', 'ChamVerif.C01_element_ok', 'ChamVerif.C01_element_raised',
+            'ChamVerif.elementPost_shape', 'ChamVerif.wrappers_shape_full', 'ChamVerif.C01_element_semantics_full']
 LEVEL_TEXT = ('Proved in Lean: the nesting order of the statement nodes on one element is the one observed on the real MacroProgram in this '
               'run (C01_wrapOrder_observed, regenerated probe), in that order definitions precede every guard and condition precedes repeat '
               '(C01_order), the wrappers are applied by kind, not by the order they were collected (applyWrappers_perm), and statement '
@@ -34,7 +35,12 @@ LEVEL_TEXT = ('Proved in Lean: the nesting order of the statement nodes on one e
               'start/end tags, tal:content - and C01_element_semantics proves, for every element of that fragment (children arbitrary), every '
               'scope and state, that whenever the interpreter reaches a verdict on the node the program builder assembles (elementPost, the '
               'second half of visit_element) it is the verdict of specElement: same output, scope, logs or exception (C01_element_ok / '
-              '_raised); wrappers_shape: the nesting is define > case > condition > repeat > switch > replace > tags > content. fuel_mono '
+              '_raised); wrappers_shape: the nesting is define > case > condition > repeat > switch > replace > tags > content. '
+              'C01_element_semantics_full removes the restriction: for *every* element (any combination of TAL, METAL, i18n statements and '
+              'tal:on-error; elementPost_shape: the builder always succeeds with ElemStmts.fullNode) the interpreter\'s verdict is that of '
+              'Spec.specFull - on-error > i18n:name > (in-place use of a defined macro |) define-slot > define > case > condition > repeat > '
+              'switch > i18n:domain > context > target > replace > tags > content (wrappers_shape_full); a macro use, the in-place use of a '
+              'defined macro and a static i18n:translate with its collected names are opaque in that statement. fuel_mono '
               '(whole interpreter, all node kinds): the fuel argument of the interpreter is only a termination device - a verdict reached with '
               'fuel f is reached with every larger fuel - so the fuel-indexed theorems speak about the one rendering of a node. The whole '
               'pipeline model (tokens, elements, nodes, interpreter) is tied to the code by end-to-end correspondence on generated '
